@@ -71,6 +71,19 @@ def correspond(run):
         run.notes.append({"shared_value_case": c})
 
 
+def direct(run):
+    # identical sequences collide with probability 1 wherever they are sketched; a slot's winner among distinct elements is
+    # equally likely to come from either half (only reported from sizes suggested by a source change)
+    rc, js, out, err = vlib.harness(["ord-props", "--seed", run.seed, "--n", 200 if run.depth == "quick" else 2000], timeout=1800)
+    if rc != 0 or js is None:
+        run.oblige("direct:ord-props", "correspondence", False, (out[-300:] + err[-300:]))
+        return
+    run.coverage["impl_sequences_checked"] = js["tried"]
+    for f in js["found"]:
+        if f["key"] in ("ord-history", "ord-panic", "ord-late-winners", "ord-l1-perm"):
+            run.violation(f["key"], f["text"], {"kind": "impl-input", "sketcher": "ProbOrdMinHash2", "input": f["input"], "observed": f["text"]})
+
+
 def search(run):
     rc, js, out, err = vlib.harness(["ord-mc", "--seed", run.seed, "--trials", 3000], timeout=3000)
     if rc == 0 and js is not None:
